@@ -86,22 +86,34 @@ func (d DataSpec) Bytes() []byte {
 				b = append(b, r.Bytes(1+r.Intn(40))...)
 			}
 		}
-	case "fib": // Fibonacci-skewed symbol frequencies: forces very long codes
+	case "fib": // exact Fibonacci symbol counts (shuffled): forces code lengths beyond 15 bits
 		k := d.P1
 		if k < 2 {
 			k = 30
 		}
-		// symbol i appears fib(i) times in a shuffled arrangement, repeated
-		var pool []byte
-		a, c := 1, 1
-		for i := 0; i < k && len(pool) < 1<<20; i++ {
-			for j := 0; j < a && len(pool) < 1<<20; j++ {
-				pool = append(pool, byte(i*7+3))
+		// largest k' <= k whose counts fit in n
+		a, c, sum, kk := 1, 1, 0, 0
+		for kk < k && sum+a <= n {
+			sum += a
+			a, c = c, a+c
+			kk++
+		}
+		if kk < 2 {
+			kk = 2
+		}
+		a, c = 1, 1
+		for i := 0; i < kk && len(b) < n; i++ {
+			for j := 0; j < a && len(b) < n; j++ {
+				b = append(b, byte(i*7+3))
 			}
 			a, c = c, a+c
 		}
 		for len(b) < n {
-			b = append(b, pool[r.Intn(len(pool))])
+			b = append(b, byte((kk-1)*7+3))
+		}
+		for i := len(b) - 1; i > 0; i-- {
+			j := r.Intn(i + 1)
+			b[i], b[j] = b[j], b[i]
 		}
 	case "allbytes":
 		for len(b) < n {
